@@ -12,6 +12,7 @@ oracle (see level_note); name validation totality is C09.
 -/
 import Pep508.Proofs.ParseFuel
 import Pep508.Proofs.ReqTotal
+import Pep508.Proofs.ErrDisplay
 namespace Pep508.C06
 open Pep508
 
@@ -81,6 +82,38 @@ theorem requirement_url_ends_ok_span (env : ProcEnv) (x : Ext) (input : List Cha
     (lastc : Char) (hlast : t.getLast? = some lastc) (h1 : utf8Len lastc = 1) :
     Boundary input e.start :=
   parseRequirement_urlEndsOk_alts env x input alts r hs ch e hm t s l hc lastc hlast h1
+
+/-! ### every returned error can be formatted (`Display for Pep508Error`)
+
+`errDisplaySlices` models the two slices `Display` takes (`none` = the slice panics).  It succeeds for
+every span whose START is a char boundary, whatever the length (several call sites store a char count
+or a constant there) — and every error of the parsers has such a start. -/
+
+theorem display_never_panics (input : List Char) (start len : Nat) (hs : Boundary input start) :
+    ∃ r, errDisplaySlices input start len = some r := errDisplaySlices_isSome input start len hs
+
+theorem marker_tree_err_renderable (x : Ext) (input : List Char) (e : PErr)
+    (h : parseMarkers x input = .err e) : ∃ r, errDisplaySlices input e.start e.len = some r :=
+  errDisplaySlices_isSome _ _ _ (parseMarkers_err_boundary x input e h)
+
+theorem marker_expression_err_renderable (x : Ext) (input : List Char) (e : PErr)
+    (h : parseExpression x input = .err e) : ∃ r, errDisplaySlices input e.start e.len = some r :=
+  errDisplaySlices_isSome _ _ _ (parseExpression_err_boundary x input e h)
+
+theorem requirement_err_renderable (env : ProcEnv) (x : Ext) (input : List Char) (e : PErr)
+    (h : (parseRequirement env x input).fin = .err e) : ∃ r, errDisplaySlices input e.start e.len = some r :=
+  errDisplaySlices_isSome _ _ _ (parseRequirement_err_boundary env x input e h)
+
+/-- what is underlined is a piece of the input starting at the span start, never longer than the span -/
+theorem display_underlines_within (input : List Char) (start len : Nat) (pre u : List Char)
+    (h : errDisplaySlices input start len = some (pre, some u)) :
+    ∃ rest, input = pre ++ u ++ rest ∧ strLen pre = start ∧ strLen u ≤ len :=
+  errDisplaySlices_spec input start len pre u h
+
+example : errDisplaySlices ['a', '語', 'b'] 1 2 = some (['a'], some []) := by decide
+example : errDisplaySlices ['a', '語', 'b'] 1 3 = some (['a'], some ['語']) := by decide
+example : errDisplaySlices ['a', '語', 'b'] 5 7 = some (['a', '語', 'b'], none) := by decide
+example : errDisplaySlices ['a', '語', 'b'] 2 1 = none := by decide   -- a start inside a char WOULD panic
 
 theorem extras_never_panic {c : Cursor} (h : c.Inv) : ∀ s, parseExtras c ≠ .panic s :=
   (parseExtras_total h).2.2
